@@ -85,7 +85,7 @@ Recv(c) ==
 CanOpen(d) ==
   /\ alive /\ ~stuck
   /\ \/ phase = "Idle" /\ d \in Dirs
-     \/ phase \in {"Closed", "Undet"} /\ conns < MaxConns /\ Len(hist) <= ProbeAfter /\ (CrossProbe \/ d = dir)
+     \/ phase \in {"Closed", "Undet"} /\ conns < MaxConns /\ Len(hist) <= ProbeAfter /\ (CrossProbe \/ d = dir) = TRUE
 \* the remote party connects: the node accepts and waits for a handshake request
 Connect ==
   /\ CanOpen("in")
